@@ -47,6 +47,7 @@ def bad_bodies(enc):
         'bad-value-primary-bitmap-only': e('1240') + bm([4], False) + e('00000000ABCD'),
         'unknown-bit-no-low-elements': e('1240') + bm([9 + 2], False) + e('12345678'),
         'undecodable-mti': b'\xff\xfe12' + bm([2]) + e('0512345'),
+        'bad-typed-value-long-record': e('1240') + bm([4, 72]) + e('00000000ABCD') + e('999') + e('X' * 999),
     }
 
 
@@ -55,18 +56,22 @@ def _funcs():
     return [m.VbsReader.__next__, m.IpmReader.__next__, m.Unblock1014.read, M().cardutil.CardutilError.__init__]
 
 
-def _good(i, enc, maxvar=300):
+def _good(i, enc, maxvar=300, big=False):
+    if big:
+        # a record that spans several blocks: three variable elements of up to 999 characters each
+        msg, elems = build_message([63, 72, 111], tag='_g%d' % i, maxvar=None)
+        return msg, elems
     msg, elems = build_message([2] if i % 2 == 0 else [3, 63], tag='_g%d' % i, maxvar=maxvar)
     return msg, elems
 
 
-def fault(nmax, kinds, enc, blocked):
+def fault(nmax, kinds, enc, blocked, big_first=False, kmax=None):
     def h():
         core.FUEL.set(24)
         m = M().mciipm
         iso = M().iso8583
         n = choose('n', list(range(1, nmax + 1)))
-        k = choose('k', list(range(1, n + 1)))
+        k = choose('k', list(range(1, (n if kmax is None else min(n, kmax)) + 1)))
         kind = choose('kind', kinds)
         f = RopeFile()
         w = m.VbsWriter(f, blocked=blocked)
@@ -88,7 +93,7 @@ def fault(nmax, kinds, enc, blocked):
                     raw_k = struct.pack('>I', len(body)) + body
                 goods.append(None)
             else:
-                msg, elems = _good(i, enc, 800 if 'truncated' in kinds else 300)
+                msg, elems = _good(i, enc, 800 if 'truncated' in kinds else 300, big=(big_first and i == 1))
                 try:
                     body = iso.dumps(dict(msg), encoding=enc)
                 except UnicodeEncodeError:
@@ -215,7 +220,7 @@ def two_faults(enc, blocked):
         core.FUEL.set(24)
         m = M().mciipm
         iso = M().iso8583
-        kinds = list(bad_bodies(enc))
+        kinds = [x for x in bad_bodies(enc) if not x.endswith('-long-record')]
         k1 = choose('k1', [1, 2])
         k2 = choose('k2', [k1 + 1, k1 + 2])
         kind1 = choose('kind1', kinds)
@@ -322,7 +327,7 @@ def configured_max(blocked):
 def obligations(tier):
     q = tier == 'quick'
     nmax = 3 if q else 4
-    msgkinds = list(bad_bodies('latin_1'))
+    msgkinds = [x for x in bad_bodies('latin_1') if not x.endswith('-long-record')]
     obs = []
     for enc in (('latin_1', 'cp500') if q else CODECS):
         for blocked in (False, True):
@@ -331,6 +336,12 @@ def obligations(tier):
                           'n in 1..%d records, every k, truncated record (every cut offset inside the body) and oversize length (6001..2^32-1)' % nmax, _funcs))
             obs.append(Ob('message/' + tag, fault(nmax, msgkinds, enc, blocked), 600,
                           'n in 1..%d records, every k, message-level faults %s' % (nmax, msgkinds), _funcs))
+    obs.append(Ob('message/large-first-record/latin_1/1014', fault(2, ['bad-mti', 'bad-field-length'], 'latin_1', True, big_first=True), 900,
+                  'blocked file whose first (good) record has 29..3026 bytes (it may span up to four blocks), the bad record after it', _funcs))
+    for blocked in (False, True):
+        obs.append(Ob('message/long-bad-record/latin_1/' + ('1014' if blocked else 'vbs'),
+                      fault(2, ['bad-typed-value-long-record'], 'latin_1', blocked, kmax=1), 600,
+                      'a bad first record of 1034 bytes (longer than one block), alone or followed by a good record: the context data is the whole record', _funcs))
     obs.append(Ob('message/ascii/vbs', fault(2 if q else 3, ['undecodable-mti', 'bad-mti', 'bad-pds', 'bad-typed-value'], 'ascii', False), 600,
                   'reader with the strict ascii codec: a record whose MTI bytes cannot be decoded (and three other kinds), every k', _funcs))
     for blocked in (False, True):
